@@ -10,6 +10,14 @@ Theorem C17_extracted_shape :
   solve_breaks_when_stable = true /\ solve_flags_nonconvergence = true /\
   solve_starts_from_never = true /\ solve_updates_by_union = true /\ (0 < iterations)%Z.
 Proof. exact extracted_shape. Qed.
+(* the rule of expr_slice_basic (typing/oracle/ctx.rs) for tuple types, re-extracted on every run: `true` is the shape after
+   the repair 0f4399a that Typing/Model.v `slice_basic` follows (TyBasic::Tuple(tuple) -> Ty::tuple_of(tuple.item_ty()), with
+   TyTuple::item_ty and Ty::tuple_of as the model has them); the old shape (the tuple type returned unchanged, which the model
+   refuted) extracts `false` and breaks this obligation. *)
+Theorem C17_extracted_tuple_slice_rule :
+  TypingC.tuple_slice_is_homogeneous = true /\ TypingC.tuple_item_ty_is_union_of_elems = true /\
+  TypingC.tuple_of_is_homogeneous_tuple = true.
+Proof. repeat split; reflexivity. Qed.
 
 (* The union iteration is bounded by the extracted constant (the loop is a structural recursion on it and never
    makes more passes than that), and non-convergence is flagged, never silent: a result without the
@@ -64,9 +72,10 @@ Proof. exact infer_expr_sound_refuted. Qed.
    + - ~ not, the ten arithmetic/bitwise operators on int, + and * on str/list/tuple, all comparisons, == !=, in / not in,
    and/or/conditional, indexing of list/tuple/dict, slicing of str/list/tuple, calls of the pure builtins len str bool int
    any all abs min max sorted list), for the checker AS IT IS (fixmul = false) or repaired, whenever the expression
-   satisfies the boolean side condition `sound_ops`, which excludes exactly the three rules refuted below:
-     a * b  where a has an `int` alternative and b is Any;  a[i:j] where a has a fixed-arity tuple alternative;
+   satisfies the boolean side condition `sound_ops`, which excludes exactly the two rules refuted below:
+     a * b  where a has an `int` alternative and b is Any (only with fixmul = false, the code as it was before 19a3ea8);
      a[i:j] where a has a typing.Iterable alternative;   (and a call must be a call of a builtin, not of a def).
+   The slice of a fixed-arity tuple, excluded and refuted until the repair 0f4399a of expr_slice_basic, is now covered.
    `sigs_wf` / `env_wf`: the types of the environment are normalised (`wf_ty`, the invariant of Ty::unions). *)
 Theorem C17_infer_expr_sound_ops : forall fixmul sigs types rho,
   sigs_wf sigs -> env_wf types -> env_ok types rho ->
@@ -89,34 +98,73 @@ Theorem C17_index_sound : forall ta ti t va vi v,
   wf_ty ta = true -> wf_ty ti = true -> denote ta (abs va) = true -> denote ti (abs vi) = true ->
   expr_index ta ti = IOk t -> index_sem va vi = Some v -> denote t (abs v) = true.
 Proof. exact index_sound. Qed.
+(* slicing of str / list / tuple values; `slice_ok ta` only says that ta has no typing.Iterable alternative: tuple types,
+   fixed-arity or homogeneous, are covered (a tuple type slices to tuple[T0 | .. | Tn-1, ...]) *)
 Theorem C17_slice_sound : forall ta t va lo hi st v,
   wf_ty ta = true -> slice_ok ta = true -> denote ta (abs va) = true ->
   union_simple slice_basic ta = IOk t -> slice_sem va lo hi st = Some v -> denote t (abs v) = true.
 Proof. exact slice_sound. Qed.
+Theorem C17_slice_ok_is_no_iterable : forall ta, slice_ok ta = negb (existsb is_iter (alts ta)).
+Proof. reflexivity. Qed.
+(* the repaired rule itself, for all element types, the empty tuple included (Ty::unions([]) = Never) *)
+Theorem C17_slice_basic_tuple : forall ts, slice_basic (TyTuple ts) = Some (TTupleOf (us ts)).
+Proof. exact slice_basic_tuple. Qed.
+Theorem C17_slice_basic_tuple_of : forall e, slice_basic (TTupleOf e) = Some (TTupleOf e).
+Proof. exact slice_basic_tuple_of. Qed.
+Example C17_slice_basic_empty_tuple : slice_basic (TyTuple []) = Some (TTupleOf TNever).
+Proof. exact slice_basic_empty_tuple. Qed.
 Theorem C17_builtin_sound : forall f vs v t,
   String.eqb f "list" = false -> builtin_ret f = IOk t -> builtin_sem f vs = Some v -> denote t (abs v) = true.
 Proof. exact builtin_sound. Qed.
 
-(* The three excluded rules are REFUTED by the faithful model (`refutes types rho e t v`: the environment is normalised and
+(* The two excluded rules are REFUTED by the faithful model (`refutes types rho e t v`: the environment is normalised and
    holds values of its types, the checker commits to t for e, e evaluates to v, and v is not in t):
-   - `3 * s`, s: Any  is typed `float | int`, the value is "aaa"                       (known finding unsound:int-mul-any)
-   - `t[0:1]`, t: (int, str) keeps the type (int, str), the value is (1,)             (known finding unsound:tuple-slice-keeps-arity)
-   - `x[0:1]`, x: str | typing.Iterable is typed `str`, the value of [1, 2][0:1] is [1]   (NEW: typecheck_union_simple drops the
-     Iterable alternative because expr_slice_basic has no rule for it, although lists and tuples are Iterable and sliceable) *)
+   - `3 * s`, s: Any  is typed `float | int`, the value is "aaa"        (finding unsound:int-mul-any, repaired by 19a3ea8: fixmul)
+   - `x[0:1]`, x: str | typing.Iterable is typed `str`, the value of [1, 2][0:1] is [1]   (typecheck_union_simple drops the
+     Iterable alternative because expr_slice_basic has no rule for it, although lists and tuples are Iterable and sliceable)
+   A third rule used to be refuted here (C17_refuted_tuple_slice: `t[0:1]`, t: (int, str) kept the type (int, str) while the value
+   is (1,); finding unsound:tuple-slice-keeps-arity).  It was repaired in the code by 0f4399a, the model follows the repaired
+   rule, the refutation is no longer a theorem and is replaced by C17_tuple_slice_sound_example below. *)
 Theorem C17_refuted_int_mul_any :
   refutes [("s", IOk TAny)] [("s", PStr "a")] (EBin BMul (EInt 3) (EVar "s")) int_or_float (PStr "aaa").
 Proof. exact refuted_int_mul_any. Qed.
-Theorem C17_refuted_tuple_slice :
-  refutes [("t", IOk (TyTuple [tint; tstr]))] [("t", PTuple [PInt 1; PStr "a"])]
-          (ESlice (EVar "t") (Some (EInt 0)) (Some (EInt 1)) None) (TyTuple [tint; tstr]) (PTuple [PInt 1]).
-Proof. exact refuted_tuple_slice. Qed.
+(* The rule for `int * Any` as the translator finds it in values/types/num/typecheck.rs on this run (after the repair 19a3ea8:
+   an early return of `Any`): with that rule every binary operation of the model is sound with NO side condition on `*` -
+   the first of the three refuted rules is gone from the code, and its former witness is now typed `Any`. *)
+Theorem C17_bin_op_sound_extracted : forall o ta tb t va vb v,
+  TypingC.int_mul_any_is_any = true ->
+  wf_ty ta = true -> wf_ty tb = true ->
+  denote ta (abs va) = true -> denote tb (abs vb) = true ->
+  expr_bin_op TypingC.int_mul_any_is_any o ta tb = IOk t -> bin_sem o va vb = Some v -> denote t (abs v) = true.
+Proof.
+  intros o ta tb t va vb v E Wa Wb Da Db Ht Hv.
+  assert (M : o = BMul -> mul_ok TypingC.int_mul_any_is_any ta tb = true).
+  { intros _. unfold mul_ok. rewrite E. reflexivity. }
+  exact (expr_bin_op_sound TypingC.int_mul_any_is_any o ta tb t va vb v Wa Wb M Da Db Ht Hv).
+Qed.
+Example C17_int_mul_any_extracted_is_repaired :
+  TypingC.int_mul_any_is_any = true /\
+  infer TypingC.int_mul_any_is_any [] [("s", IOk TAny)] (EBin BMul (EInt 3) (EVar "s")) = IOk TAny.
+Proof. vm_compute. split; reflexivity. Qed.
+
+(* the former witness: `t[0:1]` with t: (int, str), t = (1, "a") is now typed tuple[int | str, ...]; the value (1,) belongs to
+   that type (and not to the old answer (int, str)) *)
+Example C17_tuple_slice_sound_example :
+  env_wf [("t", IOk (TyTuple [tint; tstr]))] /\ env_ok [("t", IOk (TyTuple [tint; tstr]))] [("t", PTuple [PInt 1; PStr "a"])] /\
+  infer false [] [("t", IOk (TyTuple [tint; tstr]))] (ESlice (EVar "t") (Some (EInt 0)) (Some (EInt 1)) None)
+    = IOk (TTupleOf (TUnion [tint; tstr])) /\
+  peval [("t", PTuple [PInt 1; PStr "a"])] (ESlice (EVar "t") (Some (EInt 0)) (Some (EInt 1)) None) = Some (PTuple [PInt 1]) /\
+  denote (TTupleOf (TUnion [tint; tstr])) (abs (PTuple [PInt 1])) = true /\
+  denote (TyTuple [tint; tstr]) (abs (PTuple [PInt 1])) = false.
+Proof. exact tuple_slice_sound_example. Qed.
 Theorem C17_refuted_iterable_slice :
   refutes [("x", IOk (TUnion [tstr; TIter]))] [("x", PList [PInt 1; PInt 2])]
           (ESlice (EVar "x") (Some (EInt 0)) (Some (EInt 1)) None) tstr (PList [PInt 1]).
 Proof. exact refuted_iterable_slice. Qed.
+(* the side condition rejects the two remaining witnesses and ACCEPTS the former tuple-slice witness (second conjunct) *)
 Theorem C17_sound_ops_rejects_witnesses :
   sound_ops false [] [("s", IOk TAny)] (EBin BMul (EInt 3) (EVar "s")) = false /\
-  sound_ops false [] [("t", IOk (TyTuple [tint; tstr]))] (ESlice (EVar "t") (Some (EInt 0)) (Some (EInt 1)) None) = false /\
+  sound_ops false [] [("t", IOk (TyTuple [tint; tstr]))] (ESlice (EVar "t") (Some (EInt 0)) (Some (EInt 1)) None) = true /\
   sound_ops false [] [("x", IOk (TUnion [tstr; TIter]))] (ESlice (EVar "x") (Some (EInt 0)) (Some (EInt 1)) None) = false.
 Proof. exact sound_ops_rejects_witnesses. Qed.
 
@@ -271,3 +319,61 @@ Proof.
     apply String.eqb_eq in E. subst f. eexists. repeat split; reflexivity.
   - vm_compute. reflexivity.
 Qed.
+
+(* ------------------------------------------------------------------------------------------------------------------
+   The module INTERFACE (types of exported module variables; also what every def sees for a global) is computed by the
+   partial evaluator of typing/fill_types_for_lint.rs over the top-level statements, not by the solver.  Model:
+   Typing/IfaceModel.v (qualified names: it has its own small statement language). *)
+From SV Require Typing.IfaceModel Typing.IfaceProofs.
+Local Open Scope nat_scope.
+
+(* For EVERY run of the module (conditions and iteration counts arbitrary), every exported variable for which the
+   interface commits to a definite type (not Any) holds a value of one of the committed kinds. *)
+Theorem C17_interface_sound : forall s r', IfaceModel.exec IfaceModel.rempty s r' ->
+  forall x ks k, IfaceModel.interface s x = Some (IfaceModel.IKinds ks) -> r' x = Some k -> In k ks.
+Proof. exact IfaceProofs.interface_sound. Qed.
+
+(* the invariant behind it, for any prefix state *)
+Theorem C17_interface_step_sound : forall s i r r', IfaceModel.exec r s r' -> IfaceModel.iface_sound i r ->
+  IfaceModel.iface_sound (IfaceModel.abs false i s) r'.
+Proof. exact IfaceProofs.abs_sound. Qed.
+
+(* a body that may not run exactly once resets exactly the variables assigned in it, and a run changes no other *)
+Theorem C17_interface_unset_exact : forall s i y,
+  IfaceModel.unset false i s y = if IfaceProofs.mem y (IfaceProofs.targets s) then Some IfaceModel.IAny else i y.
+Proof. exact IfaceProofs.unset_spec. Qed.
+
+(* Keeping the first binding's type for a variable that is re-bound inside a top-level if / for body or by a tuple
+   unpacking ("what we already know about its type is still useful") is UNSOUND: the interface says str, the module
+   leaves a value of another kind. *)
+Theorem C17_interface_keep_first_binding_refuted :
+  exists s r', IfaceModel.exec IfaceModel.rempty s r' /\ ~ IfaceModel.iface_sound (IfaceModel.abs true IfaceModel.iempty s) r'.
+Proof. exact IfaceProofs.keep_first_binding_refuted. Qed.
+
+Example C17_interface_keep_first_witnesses :
+  (exists r', IfaceModel.exec IfaceModel.rempty IfaceProofs.rebound_in_if r' /\
+     IfaceModel.abs true IfaceModel.iempty IfaceProofs.rebound_in_if 0 = Some (IfaceModel.IKinds [IfaceModel.KStr]) /\
+     r' 0 = Some IfaceModel.KOther) /\
+  (exists r', IfaceModel.exec IfaceModel.rempty IfaceProofs.rebound_in_for r' /\
+     IfaceModel.abs true IfaceModel.iempty IfaceProofs.rebound_in_for 0 = Some (IfaceModel.IKinds [IfaceModel.KStr]) /\
+     r' 0 = Some IfaceModel.KOther) /\
+  (exists r', IfaceModel.exec IfaceModel.rempty IfaceProofs.rebound_unpack r' /\
+     IfaceModel.abs true IfaceModel.iempty IfaceProofs.rebound_unpack 0 = Some (IfaceModel.IKinds [IfaceModel.KStr]) /\
+     r' 0 = Some IfaceModel.KOther) /\
+  IfaceModel.interface IfaceProofs.rebound_in_if 0 = Some IfaceModel.IAny /\
+  IfaceModel.interface IfaceProofs.rebound_in_for 0 = Some IfaceModel.IAny /\
+  IfaceModel.interface IfaceProofs.rebound_unpack 0 = Some IfaceModel.IAny.
+Proof.
+  split; [exact IfaceProofs.keep_first_unsound_if|]. split; [exact IfaceProofs.keep_first_unsound_for|].
+  split; [exact IfaceProofs.keep_first_unsound_unpack|]. exact IfaceProofs.as_is_any.
+Qed.
+
+(* the hypotheses are satisfiable on a non-trivial module: unions from straight-line re-binding, alias, def, a branch *)
+Example C17_interface_sample :
+  IfaceModel.interface IfaceProofs.sample_module 0 = Some (IfaceModel.IKinds [IfaceModel.KNone; IfaceModel.KStr]) /\
+  IfaceModel.interface IfaceProofs.sample_module 1 = Some (IfaceModel.IKinds [IfaceModel.KTuple]) /\
+  IfaceModel.interface IfaceProofs.sample_module 2 = Some IfaceModel.IAny /\
+  IfaceModel.interface IfaceProofs.sample_module 3 = Some (IfaceModel.IKinds [IfaceModel.KFn]) /\
+  exists r', IfaceModel.exec IfaceModel.rempty IfaceProofs.sample_module r' /\ r' 0 = Some IfaceModel.KNone /\
+             r' 1 = Some IfaceModel.KTuple /\ r' 2 = Some IfaceModel.KOther /\ r' 3 = Some IfaceModel.KFn.
+Proof. exact IfaceProofs.sample_interface. Qed.
